@@ -80,6 +80,9 @@ func checkCmd(args []string) int {
 	case "C12":
 		cr.CheckDeterminism()
 		return cr.Finish("proof", checkerCmd, append(commonTrusted, "the structural order-independence rules of engine/vc/determinism.go"), "one obligation per nondeterminism source (map range, maps.Keys, environment/clock/random read, goroutine/select) in every function reachable from the generator entry points; each map range must fit an order-independence rule")
+	case "C15":
+		cr.CheckGeneratorSafety(os.Getenv("GOAGVC_RECORD") != "")
+		return cr.Finish("proof", checkerCmd, commonTrusted, "one obligation per instruction that can panic (nil dereference, nil map write, index/slice bounds, failed type assertion, explicit panic, nil func/interface call) and per thin-contract clause (requires at call sites, ensures at returns) in every function of goag, generator, specification and cmd/goag; all inputs; obligations listed in baseline/C15-unproved.json are not claimed")
 	case "C19":
 		cr.CheckFS()
 		return cr.Finish("proof", checkerCmd, commonTrusted, "one obligation per (function, return site, ensures clause) of WriteToFile / RenderToFile / Generate over the ghost file system, plus the call-graph scan for file-system writers; all pre-states and invocations are quantified")
